@@ -8,8 +8,8 @@
    examples and the correspondence check. *)
 From Coq Require Import ZArith String List Bool Lia.
 From Verif Require Import C17.Model C17.Spec C17.Mputil C17.Proofs C17.ProofsOpts C17.ProofsGeom
-     C17.ProofsRoute C17.ProofsJoin C17.ProofsArea C17.ProofsCarry C17.Examples C17.ProofsWitness.
-From Verif Require C18.Model C18.Spec C18.Proofs.
+     C17.ProofsRoute C17.ProofsJoin C17.ProofsArea C17.ProofsCarry C17.ProofsGeoEq C17.Examples C17.ProofsWitness.
+From Verif Require C18.Model C18.Spec C18.Proofs C18.Api Geo.Model.
 From VerifGen Require Import GenTags.
 Import ListNotations.
 Open Scope Z_scope.
@@ -105,6 +105,11 @@ Theorem C17_way_area_is_polygon : forall w,
   C18.Model.way_polygon C18.Model.RT (map wn_id (w_nodes w)) (w_tags w) = C18.Model.Val (way_area w).
 Proof. exact way_area_polygon. Qed.
 Print Assumptions C17_way_area_is_polygon.
+
+Theorem C17_way_area_is_api : forall w,
+  way_area w = C18.Api.way_is_area (map wn_id (w_nodes w)) (w_tags w).
+Proof. exact way_area_api. Qed.
+Print Assumptions C17_way_area_is_api.
 
 Theorem C17_way_area_spec : forall w,
   way_area w = true <->
@@ -218,6 +223,19 @@ Theorem C17_route_preserves_segments_exec : forall o d r f,
   route_geom_ok d r f = true.
 Proof. exact (fun o d r f => route_preserves_segments Mputil.join Mputil.ring_of o d r f join_conserves_edges_exec). Qed.
 Print Assumptions C17_route_preserves_segments_exec.
+
+(* the executable mputil instance is property C16's model (Geo/Model.v), function for function:
+   Join and MultiSegment.Ring give the same result on every input (segments translated field by
+   field), so C16's theorems (Geo/Api.v) hold of the instance used in the correspondence run *)
+Theorem C17_mputil_join_is_geo_join : forall segs,
+  Geo.Model.join (tg segs) = Geo.Model.JoinOk (map tg (Mputil.join segs)).
+Proof. exact join_geo. Qed.
+Print Assumptions C17_mputil_join_is_geo_join.
+
+Theorem C17_mputil_ring_is_geo_ring : forall o ms,
+  Geo.Model.ring_of o (tg ms) = Mputil.ring_of o ms.
+Proof. exact ring_of_geo. Qed.
+Print Assumptions C17_mputil_ring_is_geo_ring.
 
 Example C17_route_nonvacuous :
   exists f, nth_error (convert Mputil.join Mputil.ring_of o0 d_rich) 0 = Some f /\
